@@ -101,20 +101,32 @@ structure WF (sh : Shard) : Prop where
   docs : DocsOk sh sh.docs
   mono : sh.docs.Pairwise (fun a c => a.repo ≤ c.repo)
 
+/-- the written shard is again a well-formed input -/
+theorem WF_flatten (b : Builder) (hbi : BI b) (hoki : OKI b) : WF b.flatten := by
+  obtain ⟨_, _, i3⟩ := flatten_aux b hbi b.groups [] rfl
+  refine ⟨?_, by simpa [Builder.flatten] using i3⟩
+  intro d hd
+  simp only [Builder.flatten, List.mem_flatMap] at hd
+  obtain ⟨g, hg, hdg⟩ := hd
+  obtain ⟨i, hi, hgi⟩ := List.getElem_of_mem hg
+  have hgi' : b.groups[i]? = some g := by rw [List.getElem?_eq_getElem hi, hgi]
+  refine ⟨g.1, ?_, fun _ => hoki g hg d hdg⟩
+  simp [Builder.flatten, hbi.idx i g hgi' d hdg, hgi']
+
 theorem mergeLoop_spec :
-    ∀ (shards : List Shard) (b : Builder), (∀ sh ∈ shards, WF sh) → BI b → NE b →
-      ∃ b', mergeLoop shards b = some b' ∧ BI b' ∧ NE b' ∧ bflat b' = bflat b ++ shards.flatMap flat ∧
+    ∀ (shards : List Shard) (b : Builder), (∀ sh ∈ shards, WF sh) → BI b → NE b → OKI b →
+      ∃ b', mergeLoop shards b = some b' ∧ BI b' ∧ NE b' ∧ OKI b' ∧ bflat b' = bflat b ++ shards.flatMap flat ∧
         b'.groups.map (·.1) = b.groups.map (·.1) ++ shards.flatMap (fun sh => started sh sh.docs none) := by
   intro shards
   induction shards with
-  | nil => intro b _ hbi hne; exact ⟨b, rfl, hbi, hne, by simp, by simp⟩
+  | nil => intro b _ hbi hne hoki; exact ⟨b, rfl, hbi, hne, hoki, by simp, by simp⟩
   | cons sh rest ih =>
-    intro b hwf hbi hne
+    intro b hwf hbi hne hoki
     have hw := hwf sh (by simp)
-    obtain ⟨b1, hc, hbi1, hne1, hfl1, hrep1⟩ :=
-      copyDocs_spec sh sh.docs none b hw.docs hw.mono (by intro l hl; cases hl) hbi hne (by intro l hl; cases hl)
-    obtain ⟨b', hm, hbi', hne', hfl', hrep'⟩ := ih b1 (fun s hs => hwf s (List.mem_cons_of_mem _ hs)) hbi1 hne1
-    refine ⟨b', ?_, hbi', hne', ?_, ?_⟩
+    obtain ⟨b1, hc, hbi1, hne1, hoki1, hfl1, hrep1⟩ :=
+      copyDocs_spec sh sh.docs none b hw.docs hw.mono (by intro l hl; cases hl) hbi hne hoki (by intro l hl; cases hl)
+    obtain ⟨b', hm, hbi', hne', hoki', hfl', hrep'⟩ := ih b1 (fun s hs => hwf s (List.mem_cons_of_mem _ hs)) hbi1 hne1 hoki1
+    refine ⟨b', ?_, hbi', hne', hoki', ?_, ?_⟩
     · unfold mergeLoop; rw [hc]; exact hm
     · rw [hfl', hfl1, List.flatMap_cons, flat_eq]; simp
     · rw [hrep', hrep1]; simp
